@@ -138,9 +138,11 @@ def rule_r3(chk, lhs_classes):
              "of its name; CHOOSE_TRANSFORM_CLASS maps every LHS transform name (and aliases) to that class", floor=10)
     m = chk.repo.mod(PMOD)
     tab = m.assign("CHOOSE_TRANSFORM_CLASS")
-    if not isinstance(tab, ast.Dict):
-        raise AnalysisError("CHOOSE_TRANSFORM_CLASS is not a dict literal")
-    key_to_class = {literal(k): v.id for k, v in zip(tab.keys, tab.values)}
+    from .. import fin as _fin
+    val = _fin.module_table(m, "CHOOSE_TRANSFORM_CLASS")
+    if not isinstance(val, dict) or not val or not all(isinstance(v, _fin.FuncRef) for v in val.values()):
+        raise AnalysisError("CHOOSE_TRANSFORM_CLASS is not a table name -> class built from the module's constants")
+    key_to_class = {k: str(v) for k, v in val.items()}
     classes = sorted(set(key_to_class.values()))
     for cname in classes:
         f = m.func(f"{cname}.eval_exogenized")
